@@ -210,7 +210,7 @@ func BuildStream(s Stream, masked, compression bool) *Model {
 var acceptCloseCodes = []int{1000, 1001, 1002, 1003, 1007, 1008, 1009, 1010, 1011, 3000, 3001, 3999, 4000, 4998, 4999}
 
 func genCloseReason(t *rapid.T, max int) string {
-	r := rapid.StringOfN(rapid.RuneFrom([]rune("abcXYZ 019-_.é世𝄞")), 0, max, max).Draw(t, "reason")
+	r := rapid.StringOfN(rapid.RuneFrom([]rune("abcXYZ 019-_.é世𝄞\uFFFD\uFFFE\U0010FFFF\uE000\x00\x7f")), 0, max, max).Draw(t, "reason")
 	for len(r) > max {
 		// trim whole runes
 		rs := []rune(r)
